@@ -148,7 +148,16 @@ class Prop:
             for style in ('root', 'all'):
                 cs.append(Case(self.mk(root, types, style), 'exh-1prop'))
             count += 1
-        self.exhaustive_note = 'all graphs over root + %d types with one property each over %d edge kinds, both registration styles' % (ntypes, len(kinds))
+        # the root with two properties (order matters: an earlier choice whose failed alternative leaves state behind)
+        k2 = prop_kinds([0, 1, 2])
+        for a, b, c1, c2 in itertools.product(k2, k2, k2, k2):
+            if a[0] != 'R' and b[0] != 'R':
+                continue
+            root = ('O', 0, 0, [a, b])
+            types = {1: ('O', 0, 0, [c1]), 2: ('O', 0, 0, [c2])}
+            cs.append(Case(self.mk(root, types, 'root'), 'exh-2prop-root'))
+        self.exhaustive_note = ('all graphs over root + %d types with one property each over %d edge kinds, both registration styles; '
+                                'all graphs with a two-property root over 2 one-property types' % (ntypes, len(kinds)))
         # long chains: root -> t1 -> ... -> tk -> root, with one link of each kind somewhere
         for k in range(1, 7):
             for weak in [None] + [(j, kind) for j in range(k + 1) for kind in ('opt', 'nul', 'arr')]:
